@@ -474,6 +474,12 @@ def call(root, op, want_corr=True):
                     {id(it): node_text(it) for it in rawl})
         except Exception:
             vref = None
+    pre_cur = None
+    if kind == 'cust':
+        try:
+            pre_cur = getattr(parent, name)
+        except Exception:
+            pre_cur = None
     # ---- the call
     exn = None
     result = None
@@ -605,7 +611,7 @@ def call(root, op, want_corr=True):
                 {id(t) for t in T1} & {id(t) for t in twin_T0}:
             findings.append((SIG_REUSE, f'{op["op"]} on {type(parent).__name__}.{name} accepted tokens that live in another '
                                         f'document: a token is now in two stores'))
-        elif op.get('kind') == 'cmt':
+        elif op.get('kind') == 'cmt' or (kind == 'cust' and values and pre_cur is values[0]):
             pass
         elif rec['bad_donor'] and not (op['op'] in ('set_opt', 'set_req') and info.get('same')) \
                 and not _is_current(parent, name, kind, values, ch0, op):
@@ -1358,8 +1364,24 @@ def op_class(op, rec):
 
 
 # ---- driver ---------------------------------------------------------------------------------------
-def replay_script(text, script):
+def set_lf(lf):
+    """token-store load factor: small values make block splits / merges / rebalancing happen in small documents"""
+    from harness import store_driver
+    store_driver.set_load_factor(lf)
+
+
+def replay_script(text, script, lf=1000):
     """re-executes a witness; returns all monitor findings"""
+    try:
+        set_lf(1000)
+        pool()
+        set_lf(lf)
+        return _replay_script(text, script)
+    finally:
+        set_lf(1000)
+
+
+def _replay_script(text, script):
     root = gen_docs.parse_ok(text)
     out = []
     if root is None:
@@ -1373,14 +1395,14 @@ def replay_script(text, script):
     return out, cases
 
 
-def shrink_script(text, script, sig):
+def shrink_script(text, script, sig, lf=1000):
     """drop ops that are not needed to reproduce signature `sig` at the last op"""
     cur = list(script)
     i = 0
     while i < len(cur) - 1 and len(cur) > 1:
         cand = cur[:i] + cur[i + 1:]
         try:
-            f, _ = replay_script(text, cand)
+            f, _ = replay_script(text, cand, lf)
             if any(s == sig for s, _ in f):
                 cur = cand
                 continue
@@ -1439,27 +1461,44 @@ for _form, _prop in (('{{500.00}}', 'number_per'), ('{500.00}', 'number_total'),
                      'vtype': None if _prop == 'currency' else 'decimal', 'value': None if _prop == 'currency' else '3'}]))
 
 
+# token-store stress under small load factors: grow one region of the document, then shrink the region next to it,
+# so that blocks split, merge and rebalance while items are inserted and removed (every call is framed)
+_STRESS_TEXT = ''.join('2000-01-%02d open Assets:A%02d  USD, EUR\n' % (i % 28 + 1, i) for i in range(16))
+_F = {'parent': [], 'attr': 'raw_directives_with_comments', 'kind': 'rep'}
+_INS = lambda i: {**_F, 'op': 'insert', 'i': i, 'donors': [{'k': 'copy_doc', 'path': [['raw_directives_with_comments', 0]]}]}
+_POP = lambda i: {**_F, 'op': 'pop', 'i': i, 'donors': []}
+_STRESS = ([_INS(3)] * 4 + [_POP(9)] * 5 + [_INS(1)] * 3 + [_POP(2)] * 6 + [_INS(6)] * 3 + [_POP(-2)] * 4
+           + [{**_F, 'op': 'delslice', 's': [2, 6, None], 'donors': []}, _INS(0), _INS(0), _POP(4), _POP(4), _POP(1)])
+CORPUS += [(_STRESS_TEXT, _STRESS, lf) for lf in (2, 3, 4, 5)]
+
+
 def run_slots(ctx: common.Ctx, props, n_docs: int, n_ops: int):
     """props: which monitor signatures belong to the calling property ('C03' and/or 'C19')"""
     rng = ctx.rng
     cases, case_meta = [], []
     reported = set()
-    for text, script in CORPUS:
+    for entry in CORPUS:
+        text, script = entry[0], entry[1]
+        clf = entry[2] if len(entry) > 2 else 1000
         try:
-            findings, cs = replay_script(text, script)
+            findings, cs = replay_script(text, script, clf)
         except Exception as e:
             findings, cs = [('C03:frame', 'corpus script crashed: ' + type(e).__name__),
                             ('C19:refusal-not-atomic', 'corpus script crashed: ' + type(e).__name__)], []
         ctx.dist('corpus')
         ctx.case({'corpus': script[-1]['op'], 'attr': script[-1]['attr']})
-        for c in cs:
+        for c in cs[-6:]:
             cases.append(c)
-            case_meta.append((text, script))
+            case_meta.append((text, script, clf))
         for sig, what in findings:
             if sig.split(':')[0] in props:
                 reported.add(sig)
-                ctx.monitor_failure(sig, what, {'text': text, 'script': script})
+                ctx.monitor_failure(sig, what, {'text': text, 'script': script, 'lf': clf})
+    set_lf(1000)
+    pool()
     for di in range(n_docs):
+        lf = rng.choice([2, 3, 4, 5, 6, 10, 1000, 1000])
+        set_lf(lf)
         mode = rng.choice(['general', 'general', 'general', 'general', 'views', 'views', 'views', 'cost', 'cost', 'cmt'])
         text = cost_ledger(rng) if mode == 'cost' else gen_docs.ledger(rng, n_dir=rng.choice([1, 2, 3, 4, 6]))
         if mode == 'views' and rng.random() < 0.7:
@@ -1504,6 +1543,11 @@ def run_slots(ctx: common.Ctx, props, n_docs: int, n_ops: int):
             except Exception as e:
                 # the harness could not even observe the call (tree unusable): stop this document
                 ctx.dist('harness_skip:' + type(e).__name__)
+                # the tree or its store cannot even be read around this call: the previous call broke the document
+                if len(script) > 1:
+                    sig = SIG_FRAME if 'C03' in props else SIG_ATOMIC
+                    ctx.monitor_failure(sig, f'the document cannot be read any more after {script[-2]["op"]} on {script[-2]["attr"]} '
+                                             f'({type(e).__name__})', {'text': text, 'script': list(script), 'lf': lf})
                 break
             if op['op'] in ('unclaim_inter', 'spacing') and rec['exn'] is None:
                 loose = True
@@ -1512,7 +1556,7 @@ def run_slots(ctx: common.Ctx, props, n_docs: int, n_ops: int):
             ctx.case({'doc': di, 'op': cls}, nontrivial=True)
             if rec['case'] and len(rec['case']) < 120000:
                 cases.append(rec['case'])
-                case_meta.append((text, list(script)))
+                case_meta.append((text, list(script), lf))
             for sig, what in rec['findings']:
                 if sig.split(':')[0] not in props:
                     continue
@@ -1522,14 +1566,17 @@ def run_slots(ctx: common.Ctx, props, n_docs: int, n_ops: int):
                 small = script
                 if len(script) > 1 and sum(1 for f in ctx.failures if f.signature == sig) < 1:
                     try:
-                        small = shrink_script(text, script, sig)
+                        small = shrink_script(text, script, sig, lf)
+                        set_lf(lf)
                     except Exception:
                         small = script
-                ctx.monitor_failure(sig, what, {'text': text, 'script': small})
+                        set_lf(lf)
+                ctx.monitor_failure(sig, what, {'text': text, 'script': small, 'lf': lf})
             if rec['findings']:
                 break            # a violated property may have left the tree unusable
             if len(list(root.token_store)) > 400:
                 break
+    set_lf(1000)
     bad0 = ctx.run_coq_cases('slots', PREAMBLE, 'case', 'check_both', cases, chunk=12)
     # check_both = model agrees AND the layout invariant (hypothesis of the theorems) holds on the state before
     bad = []
@@ -1545,11 +1592,12 @@ def run_slots(ctx: common.Ctx, props, n_docs: int, n_ops: int):
     ctx.count('layout_hypothesis_checked', len(cases))
     ctx.count('traces_validated_against_impl', len(cases) - len(bad))
     for i in bad[:3]:
-        text, script = case_meta[i]
+        text, script = case_meta[i][0], case_meta[i][1]
+        lf_i = case_meta[i][2] if len(case_meta[i]) > 2 else 1000
         op = script[-1]
         ctx.fail('corr', 'slots:' + op['op'],
                  f'Repeated.v/Fields.v disagree with the implementation on {op["op"]} of {op["attr"]}',
-                 {'text': text, 'script': script})
+                 {'text': text, 'script': script, 'lf': lf_i})
     if len(bad) > 3:
         ctx.count('failures_corr', len(bad) - 3)
 
@@ -1593,7 +1641,7 @@ def replay(ctx, path, props=('C03',)):
     if 'script' not in w:
         print(json.dumps(f, indent=1)[:3000])
         return 1
-    findings, cases = replay_script(w['text'], w['script'])
+    findings, cases = replay_script(w['text'], w['script'], w.get('lf', 1000))
     for sig, what in findings:
         print('monitor:', sig, what)
     bad = ctx.run_coq_cases('replay', PREAMBLE, 'case', 'check_case', cases, chunk=12) if cases else []
